@@ -3566,28 +3566,27 @@ impl fmt::Display for Statement {
                     table_name.to_string()
                 };
 
+                write!(
+                    f,
+                    "{start}",
+                    start = if *replace_into { "REPLACE" } else { "INSERT" },
+                )?;
                 if let Some(action) = or {
-                    write!(f, "INSERT OR {action} INTO {table_name} ")?;
-                } else {
-                    write!(
-                        f,
-                        "{start}",
-                        start = if *replace_into { "REPLACE" } else { "INSERT" },
-                    )?;
-                    if let Some(priority) = priority {
-                        write!(f, " {priority}",)?;
-                    }
-
-                    write!(
-                        f,
-                        "{ignore}{over}{int}{tbl} {table_name} ",
-                        table_name = table_name,
-                        ignore = if *ignore { " IGNORE" } else { "" },
-                        over = if *overwrite { " OVERWRITE" } else { "" },
-                        int = if *into { " INTO" } else { "" },
-                        tbl = if *table { " TABLE" } else { "" },
-                    )?;
+                    write!(f, " OR {action}")?;
                 }
+                if let Some(priority) = priority {
+                    write!(f, " {priority}",)?;
+                }
+
+                write!(
+                    f,
+                    "{ignore}{over}{int}{tbl} {table_name} ",
+                    table_name = table_name,
+                    ignore = if *ignore { " IGNORE" } else { "" },
+                    over = if *overwrite { " OVERWRITE" } else { "" },
+                    int = if *into { " INTO" } else { "" },
+                    tbl = if *table { " TABLE" } else { "" },
+                )?;
                 if !columns.is_empty() {
                     write!(f, "({}) ", display_comma_separated(columns))?;
                 }
